@@ -41,7 +41,11 @@ let mk (type k) (parse : string -> k) (show : k -> string) (key_of : k -> rid ->
   let sl = ref (sl_empty (nat_of_int 4) (nat_of_int 4)) in
   let lv = ref 0 in
   let sl_do f = (match f !sl with Ok0 s' -> sl := s' | Err _ -> failwith "skip-list model: out of fuel / dangling") in
+  let nops = ref 0 in
   let agree () =
+    incr nops;
+    (* the full comparison is linear in the number of entries: every operation while the index is small, every 25th later *)
+    if List.length !st <= 200 || !nops mod 25 = 0 then
     (match sl_to_list !sl with
      | Ok0 l -> if l <> !st || not (sl_checkb !sl) then failwith "skip-list model disagrees with the container specification"
      | Err _ -> failwith "skip-list model: walk failed") in
